@@ -265,9 +265,29 @@ func (c *Ctx) claimObjectGuards() {
 	obj, match, adopt, release := ps[1], ps[2], ps[3], ps[4]
 	recv := fi.Decl.Recv.List[0].Names[0]
 	nA, nR := 0, 0
-	for _, call := range callsIn(fi.Decl.Body, false) {
-		id, ok := ast.Unparen(call.Fun).(*ast.Ident)
+	// the calls of the adopt and release callbacks: in ClaimObject itself or in a helper the engine expands
+	// into it (there the callback is a parameter known equal to ClaimObject's). Guards are stated over
+	// ClaimObject's own parameters; inside a helper the engine relates them to the helper's.
+	ppos := fi.Decl.Body.Lbrace + 1
+	var allCalls []*ast.CallExpr
+	for _, bd := range fn.Bodies() {
+		allCalls = append(allCalls, callsIn(bd, false)...)
+	}
+	isParam := func(st gf.State, e ast.Expr, p *ast.Ident) bool {
+		id, ok := ast.Unparen(e).(*ast.Ident)
 		if !ok {
+			return false
+		}
+		if info.ObjectOf(id) == info.ObjectOf(p) {
+			return true
+		}
+		good, _ := st.Implies(gf.FEq(fn.Term(id), fn.Term(p)))
+		return good && st.Reachable()
+	}
+	matchT := func() *gf.Formula { return c.Want(fn, ppos, "$1($2)", match, obj) }
+	var adoptCalls []*ast.CallExpr
+	for _, call := range allCalls {
+		if _, ok := ast.Unparen(call.Fun).(*ast.Ident); !ok {
 			continue
 		}
 		st := an.StateAtExpr(call)
@@ -280,57 +300,60 @@ func (c *Ctx) claimObjectGuards() {
 				case "nil":
 					alts = append(alts, gf.FNil(ct))
 				case "mine":
-					alts = append(alts, gf.And(gf.FNotNil(ct), gf.FEq(gf.Field(ct, "UID", nil), c.WantTerm(fn, call.Pos(), "$1.Controller.GetUID()", recv))))
+					alts = append(alts, gf.And(gf.FNotNil(ct), gf.FEq(gf.Field(ct, "UID", nil), c.WantTerm(fn, ppos, "$1.Controller.GetUID()", recv))))
 				}
 			}
 			return gf.Or(alts...)
 		}
-		switch info.ObjectOf(id) {
-		case info.ObjectOf(adopt):
+		switch {
+		case isParam(st, call.Fun, adopt):
 			nA++
+			adoptCalls = append(adoptCalls, call)
 			name := "ClaimObject: adopt(ctx, obj)"
 			c.Implies(st, ctrl("nil"), "C10.2-adopt-orphans-only", name, call.Pos())
-			c.Implies(st, c.Want(fn, call.Pos(), "$1.Controller.GetDeletionTimestamp() == nil", recv), "C10.2-adopt-owner-not-deleting", name, call.Pos())
-			c.Implies(st, c.Want(fn, call.Pos(), "$1($2)", match, obj), "C10.2-adopt-matching-only", name, call.Pos())
-			c.Implies(st, c.Want(fn, call.Pos(), "$1.GetDeletionTimestamp() == nil", obj), "C10.2-adopt-live-objects-only", name, call.Pos())
-		case info.ObjectOf(release):
+			c.Implies(st, c.Want(fn, ppos, "$1.Controller.GetDeletionTimestamp() == nil", recv), "C10.2-adopt-owner-not-deleting", name, call.Pos())
+			c.Implies(st, matchT(), "C10.2-adopt-matching-only", name, call.Pos())
+			c.Implies(st, c.Want(fn, ppos, "$1.GetDeletionTimestamp() == nil", obj), "C10.2-adopt-live-objects-only", name, call.Pos())
+		case isParam(st, call.Fun, release):
 			nR++
 			name := "ClaimObject: release(ctx, obj)"
 			c.Implies(st, ctrl("mine"), "C10.2-release-own-only", name, call.Pos())
-			c.Implies(st, c.Want(fn, call.Pos(), "!$1($2)", match, obj), "C10.2-release-non-matching-only", name, call.Pos())
-			c.Implies(st, c.Want(fn, call.Pos(), "$1.Controller.GetDeletionTimestamp() == nil", recv), "C10.2-release-owner-not-deleting", name, call.Pos())
+			c.Implies(st, gf.Not(matchT()), "C10.2-release-non-matching-only", name, call.Pos())
+			c.Implies(st, c.Want(fn, ppos, "$1.Controller.GetDeletionTimestamp() == nil", recv), "C10.2-release-owner-not-deleting", name, call.Pos())
 		}
 	}
 	c.Floor("C10.2-adopt-sites", nA, 1)
 	c.Floor("C10.2-release-sites", nR, 1)
 	// `true` (claimed) is returned only for an object we control and that matches, or after a successful adoption
 	nt := 0
-	ast.Inspect(fi.Decl.Body, func(x ast.Node) bool {
-		ret, ok := x.(*ast.ReturnStmt)
-		if !ok || len(ret.Results) != 2 || fn.Formula(ret.Results[0]) != gf.True {
-			return true
-		}
-		nt++
-		st := an.StateBefore(ret)
-		name := fmt.Sprintf("ClaimObject: return true[%d]", nt)
-		if good, _ := st.Implies(c.Want(fn, ret.Pos(), "$1($2)", match, obj)); good {
-			c.OK("C10.2-claimed-implies-match", name, ret.Pos(), "facts imply match(obj)")
-			return true
-		}
-		// otherwise it must be the success exit of an adoption (whose own guards are checked above)
-		viaAdopt := false
-		for _, call := range callsIn(fi.Decl.Body, false) {
-			if id, ok := ast.Unparen(call.Fun).(*ast.Ident); ok && info.ObjectOf(id) == info.ObjectOf(adopt) {
-				stmt := stmtOf(fi.Decl.Body, call)
-				aU := fn.FromUntil(fi.Decl.Body.List[0], gf.TrueState(), stmt)
+	for _, bd := range fn.Bodies() {
+		ast.Inspect(bd, func(x ast.Node) bool {
+			if _, isLit := x.(*ast.FuncLit); isLit {
+				return false
+			}
+			ret, ok := x.(*ast.ReturnStmt)
+			if !ok || len(ret.Results) != 2 || fn.Formula(ret.Results[0]) != gf.True {
+				return true
+			}
+			nt++
+			st := an.StateBefore(ret)
+			name := fmt.Sprintf("ClaimObject: return true[%d]", nt)
+			if good, _ := st.Implies(matchT()); good {
+				c.OK("C10.2-claimed-implies-match", name, ret.Pos(), "facts imply match(obj)")
+				return true
+			}
+			// otherwise it must be the success exit of an adoption (whose own guards are checked above)
+			viaAdopt := false
+			for _, call := range adoptCalls {
+				aU := fn.FromUntil(fi.Decl.Body.List[0], gf.TrueState(), call)
 				if !aU.StateBefore(ret).Reachable() {
 					viaAdopt = true
 				}
 			}
-		}
-		c.Check(viaAdopt, "C10.2-claimed-implies-match", name, ret.Pos(), "reachable only through the (guarded) adopt call", "an object is reported as claimed without match(obj) and without passing the adopt call")
-		return true
-	})
+			c.Check(viaAdopt, "C10.2-claimed-implies-match", name, ret.Pos(), "reachable only through the (guarded) adopt call", "an object is reported as claimed without match(obj) and without passing the adopt call")
+			return true
+		})
+	}
 	c.Floor("C10.2-claimed-returns", nt, 2)
 	// effect set of the claim path
 	claim := c.Func(load.K8sPkg, "PodControllerRefManager.ClaimPods")
